@@ -1,5 +1,6 @@
 import Ogorek.Props.C16
 import Ogorek.Props.C03
+import Ogorek.Lemmas.Bridge
 
 /-!
   C05 — Every decoded value re-encodes at every protocol and decodes back to itself.
@@ -168,5 +169,42 @@ theorem C05_encodablePairs (ip : IsPrint) (ec : ECfg) (c : Cfg) (u : Bool) :
     exact Documented.seq (Documented.seq (C05_encodable ip ec c u k hw.1.1 ha.1.1) (C05_encodable ip ec c u v hw.1.2 ha.1.2))
       (C05_encodablePairs ip ec c u r hw.2 ha.2)
 end
+
+
+/-- **C05 (decodes back).** Whatever byte string `Decode` accepted (from any state whose containers
+    satisfy the decoder's key invariant — in particular a fresh Decoder) and whatever plain value `v`
+    its result stands for (`Rep`: the result with its containers unfolded; of documented types, `wfRes`;
+    of encodable shape, `shapeOK`: payloads below 4 GiB, no Call of the bytes / bytearray forms, and with
+    builtin maps no `*big.Int` keys): at every protocol 0..5 at which `Encode v` returns no error
+    (i.e. none of the three documented limitations applies), decoding exactly the bytes written — by any
+    Decoder of the same configuration, in any state — succeeds, consumes them all and returns a result
+    that stands for the same `v`: identical in type and content to the first result.
+    (Protocol 0 only: `FloatsOK`, the float-text hypothesis of `C03_roundtrip`.) -/
+theorem C05_decodes_back (ip : IsPrint) (hip : ip 10 = false) (cfg : Cfg) (inp : Bytes) (st0 : DState) (hk0 : HeapKeys st0)
+    (r : GoVal) (st' : DState) (rest : Bytes) (hdec : decode (goCfg cfg) none st0 inp = (.ok r, st', rest))
+    (v : GoVal) (hrep : Rep (goCfg cfg) st'.heap r v) (hw : wfRes cfg false v = true) (hs : shapeOK cfg v = true)
+    (c : ECfg) (hp0 : 0 ≤ c.proto) (hp5 : c.proto ≤ 5) (hsu : cfg.su = c.su) (hf : FloatsOK c (floatsOf v))
+    (he : (encodeTop ip c none v).err = none) (st1 : DState) :
+    ∃ r2 st2, decode (goCfg cfg) none st1 (flat (encodeTop ip c none v)) = (.ok r2, st2, []) ∧
+      Rep (goCfg cfg) st2.heap r2 v := by
+  have hk' : HeapKeys st' := by
+    have := decode_heapKeys (goCfg cfg) none st0 inp hk0
+    rw [hdec] at this; exact this
+  have hc : canon cfg v = true := canon_of_rep (mc := goCfg cfg) hk' v hrep hw hs
+  exact C03_roundtrip ip hip c cfg v hp0 hp5 hsu hc hf he st1
+
+
+/-- Non-vacuity: the pickle `}(K\x01]K\x02\x85Nu.` — a dict `{1: [], (2,): None}` built with SETITEMS —
+    decodes (PyDict on) to a result that stands for that Dict, which meets the theorem's hypotheses. -/
+example : ∃ r st', decode (goCfg { pyDict := true, su := false }) none {} [125, 40, 75, 1, 93, 75, 2, 0x85, 78, 117, 46] = (.ok r, st', []) ∧
+    Rep (goCfg { pyDict := true, su := false }) st'.heap r (.dict [(.int 1, .list []), (.tuple [.int 2], .none)]) ∧
+    wfRes { pyDict := true, su := false } false (.dict [(.int 1, .list []), (.tuple [.int 2], .none)]) = true ∧
+    shapeOK { pyDict := true, su := false } (.dict [(.int 1, .list []), (.tuple [.int 2], .none)]) = true := by
+  refine ⟨.href 0, (decode (goCfg { pyDict := true, su := false }) none {} [125, 40, 75, 1, 93, 75, 2, 0x85, 78, 117, 46]).2.1,
+    by rfl, ?_, by decide, by decide⟩
+  have hh : (decode (goCfg { pyDict := true, su := false }) none {} [125, 40, 75, 1, 93, 75, 2, 0x85, 78, 117, 46]).2.1.heap =
+      [{ kind := .dict, kvs := [(.int 1, .list []), (.tuple [.int 2], .none)] }] := by rfl
+  rw [hh]
+  simp [Rep, RepList, RepPairs, dictKind, goCfg]
 
 end Ogorek
